@@ -332,12 +332,17 @@ func importWriteDiscipline(c *Ctx, rule, rel string) {
 	}
 	importPremises(c, rule, "write-error premise ", "a write error that is dropped turns truncated output into a successful render", inPkg, func() { runC15(c) })
 	importPremises(c, rule, "own-buffer premise ", "Render must return what this render wrote, nothing left over from another", func(o *Ob) bool { return o.Rule == "R10.3" && inPkg(o) }, func() { runC10(c) })
+	importPremises(c, rule, "no-text-on-error premise ", "an error must not come with a partial document", func(o *Ob) bool { return o.Rule == "R09.R" && inPkg(o) && !strings.Contains(o.Construct, "premise") }, func() { runC09(c) })
 }
 
 // importPropertyStore: a renderer that resolves a column setting (alignment, skipable) relies on a get returning
 // the value most recently set for that key on that owner (C12's R12.1/R12.2 on the property chain).
 func importPropertyStore(c *Ctx, rule string) {
 	importPremises(c, rule, "property-store premise ", "a stale or lost setting changes how the column is rendered", func(o *Ob) bool {
-		return o.Rule == "R12.1" || o.Rule == "R12.2"
+		return o.Rule == "R12.1" || o.Rule == "R12.2" || o.Rule == "R12.5"
 	}, func() { runC12(c) })
+	// ... and on the column the setting was made on still being the table's column n when it is read back
+	importPremises(c, rule, "column-bookkeeping premise ", "a growth step that loses, shifts or re-creates a column loses the settings made on it", func(o *Ob) bool {
+		return o.Rule == "R02.3" && (strings.Contains(o.Construct, "olumn") || strings.Contains(o.Func, "resize"))
+	}, func() { runC02(c) })
 }
